@@ -147,7 +147,7 @@ EachT(h, ts, f, arg) ==
 InplN(h, n, f, arg) ==
   CASE f = "each"    -> EachT(h, h.nets[n].ts, "scale", arg)
     [] f = "relabel" -> EachT(h, h.nets[n].ts, "relabel", arg)
-    [] f = "expo"    -> [h EXCEPT !.nets[n].exp = @ + 1]
+    [] f = "norm"    -> Let(EachT(h, h.nets[n].ts, "scale", arg), LAMBDA h1 : [h1 EXCEPT !.nets[n].exp = @ + 1])
 
 PlainN(h, n, f, arg) ==
   IF Dev = "netself" /\ f = "relabel"
@@ -186,7 +186,7 @@ Calls(h, o) ==
        \cup {<<"reduce", x>> : x \in Range(inds)}
        \cup {<<"relabel", <<x, "z">>>> : x \in {y \in Range(inds) : "z" \notin Range(inds)}}
        \cup {<<"transpose", pi>> : pi \in TestPerms(Len(inds))}
-  ELSE {<<"each", "-">>, <<"expo", "-">>}
+  ELSE {<<"each", "-">>, <<"norm", "-">>}
        \cup {<<"relabel", <<x, "z">>>> : x \in {y \in LabelsOfObj(h, o) : "z" \notin LabelsOfObj(h, o)}}
 
 \* re-storages tried inside one call record: two per tensor involved
@@ -194,13 +194,19 @@ Calls(h, o) ==
 Storages(h, o) == UNION {{<<t, pi>> : pi \in TestPerms(Len(h.tens[t].inds))} : t \in TensOf(h, o)}
 PermuteStorageH(h, t, pi) == InplT(h, t, "transpose", pi)
 
-\* operands of a binary operator
+\* labels summed inside a network (carried by two of its tensors)
+InnerOf(h, n) == {x \in LabelsOfObj(h, <<"N", n>>) :
+                    Cardinality({k \in DOMAIN h.nets[n].ts : x \in Range(h.tens[h.nets[n].ts[k]].inds)}) >= 2}
+
+\* operands of a binary operator (networks whose summed labels clash are combined on the real code only:
+\* quimb then renames the clashing labels of the right operand, see KF-C03-1)
 BinaryPairs(h) ==
   {q \in {"+"} \X Objects(h) \X Objects(h) :
       q[2][1] = "T" /\ q[3][1] = "T" /\ Range(h.tens[q[2][2]].inds) = Range(h.tens[q[3][2]].inds)}
   \cup {q \in {"&", "|"} \X Objects(h) \X Objects(h) :
           q[2][1] = "N" /\ q[3][1] = "N" /\ q[2] # q[3]
-          /\ Range(h.nets[q[2][2]].ts) \cap Range(h.nets[q[3][2]].ts) = {}}
+          /\ Range(h.nets[q[2][2]].ts) \cap Range(h.nets[q[3][2]].ts) = {}
+          /\ InnerOf(h, q[2][2]) \cap InnerOf(h, q[3][2]) = {}}
 
 (* ------------------------- the call record ----------------------------- *)
 Around(h, h2, S)  == [q \in S |-> [before |-> Obs(h, q), after |-> Obs(h2, q)]]
@@ -213,7 +219,7 @@ CallRecordOf(h, o, f, arg, p, c, hi, v0, vp) ==
    args    |-> <<>>,
    sharers |-> Around(h, p.h, Objects(h) \ {o}),
    arrays  |-> ArraysAround(h, p.h),
-   plain   |-> [exc |-> "", st |-> vp, stw |-> vp, dq |-> 0],
+   plain   |-> [exc |-> "", st |-> vp, stw |-> vp, stv |-> vp, dq |-> 0],
    inpl    |-> [exc |-> "", st |-> Val(hi, c.o), dq |-> 0, self |-> TRUE,
                 orig |-> [before |-> Obs(h, o), after |-> Obs(hi, o)],
                 arrays |-> ArraysAround(h, hi)],
@@ -224,8 +230,9 @@ CallRecordOf(h, o, f, arg, p, c, hi, v0, vp) ==
                         THEN [k \in DOMAIN arg |-> Pos(hp.tens[o[2]].inds, PermuteSeq(h.tens[o[2]].inds, arg)[k])]
                         ELSE arg, LAMBDA argp :
                       Let(Plain(hp, o, f, argp), LAMBDA pp :
-                        [exc |-> "", st |-> Val(pp.h, pp.res), dq |-> 0, level |-> "tensor", same_in |-> Val(hp, o) = v0])))],
-   randomised |-> FALSE, docself |-> TRUE, hasinpl |-> TRUE, gauge |-> FALSE]
+                        [exc |-> "", st |-> Val(pp.h, pp.res), dq |-> 0, level |-> "tensor", mode |-> "model", same_in |-> Val(hp, o) = v0,
+                         pure |-> Obs(pp.h, o) = Obs(hp, o)])))],
+   randomised |-> FALSE, docself |-> TRUE, hasinpl |-> TRUE, gauge |-> FALSE, orderdep |-> FALSE]
 
 BinaryRecordOf(h, q, p) ==
   [ev |-> "call", name |-> q[1],
@@ -233,14 +240,15 @@ BinaryRecordOf(h, q, p) ==
    args    |-> << [before |-> Obs(h, q[3]), after |-> Obs(p.h, q[3])] >>,
    sharers |-> Around(h, p.h, Objects(h) \ {q[2], q[3]}),
    arrays  |-> ArraysAround(h, p.h),
-   plain   |-> [exc |-> "", st |-> Val(p.h, p.res), stw |-> Val(p.h, p.res), dq |-> 0],
+   plain   |-> [exc |-> "", st |-> Val(p.h, p.res), stw |-> Val(p.h, p.res), stv |-> Val(p.h, p.res), dq |-> 0],
    inpl    |-> [exc |-> ""],
    perm    |-> [s \in Storages(h, q[2]) \cup Storages(h, q[3]) |->
                   Let(PermuteStorageH(h, s[1], s[2]), LAMBDA hp :
                     Let(RunBinary(hp, q), LAMBDA pp :
-                      [exc |-> "", st |-> Val(pp.h, pp.res), dq |-> 0, level |-> "tensor",
-                       same_in |-> Val(hp, q[2]) = Val(h, q[2]) /\ Val(hp, q[3]) = Val(h, q[3])]))],
-   randomised |-> FALSE, docself |-> FALSE, hasinpl |-> FALSE, gauge |-> FALSE]
+                      [exc |-> "", st |-> Val(pp.h, pp.res), dq |-> 0, level |-> "tensor", mode |-> "model",
+                       same_in |-> Val(hp, q[2]) = Val(h, q[2]) /\ Val(hp, q[3]) = Val(h, q[3]),
+                       pure |-> Obs(pp.h, q[2]) = Obs(hp, q[2]) /\ Obs(pp.h, q[3]) = Obs(hp, q[3])]))],
+   randomised |-> FALSE, docself |-> FALSE, hasinpl |-> FALSE, gauge |-> FALSE, orderdep |-> FALSE]
 
 FailedIn(r) == Let(r, LAMBDA rv : Let(CallClauses(rv), LAMBDA cl : {cl[k][1] : k \in {j \in DOMAIN cl : ~cl[j][2]}}))
 
@@ -328,17 +336,20 @@ AdoptA    == \E t \in DOMAIN H.tens : Adopt(t)
 PermuteA  == \E t \in DOMAIN H.tens : \E pi \in PermsOf(Len(H.tens[t].inds)) : PermuteStorage(t, pi)
 PlainA    == \E o \in Objects(H) : \E c \in Calls(H, o) : CallPlain(o, c)
 InplaceA  == \E o \in Objects(H) : \E c \in Calls(H, o) : CallInplace(o, c)
-BinaryA   == \E q \in BinaryPairs(H) : Binary(q)
+AddA      == \E q \in BinaryPairs(H) : q[1] = "+" /\ Binary(q)
+CombineA  == \E q \in BinaryPairs(H) : q[1] # "+" /\ Binary(q)
 
-Next == CopyA \/ VCopyA \/ AdoptA \/ PermuteA \/ PlainA \/ InplaceA \/ BinaryA
+Next == CopyA \/ VCopyA \/ AdoptA \/ PermuteA \/ PlainA \/ InplaceA \/ AddA \/ CombineA
 
-\* one rank-3 tensor, one rank-2 tensor sharing label "c" with it, one network holding both
+\* one rank-3 tensor, one rank-2 tensor sharing label "c" with it, one network holding both,
+\* and a second network holding a vector on label "d"
 Init ==
-  /\ H = [bufs |-> << <<"X">>, <<"Y">> >>,
-          arrs |-> << [buf |-> 1, lay |-> <<"p", "q", "r">>], [buf |-> 2, lay |-> <<"u", "v">>] >>,
+  /\ H = [bufs |-> << <<"X">>, <<"Y">>, <<"W">> >>,
+          arrs |-> << [buf |-> 1, lay |-> <<"p", "q", "r">>], [buf |-> 2, lay |-> <<"u", "v">>], [buf |-> 3, lay |-> <<"w">>] >>,
           tens |-> << [arr |-> 1, inds |-> <<"a", "b", "c">>, tags |-> {"P"}, left |-> {"a"}],
-                      [arr |-> 2, inds |-> <<"c", "d">>, tags |-> {"Q"}, left |-> {}] >>,
-          nets |-> << [ts |-> <<1, 2>>, exp |-> 0] >>]
+                      [arr |-> 2, inds |-> <<"c", "d">>, tags |-> {"Q"}, left |-> {}],
+                      [arr |-> 3, inds |-> <<"d">>, tags |-> {"Q"}, left |-> {}] >>,
+          nets |-> << [ts |-> <<1, 2>>, exp |-> 0], [ts |-> <<3>>, exp |-> 1] >>]
   /\ depth = 0 /\ act = <<"init">> /\ bad = {} /\ hist = <<>>
 
 Spec == Init /\ [][Next]_vars
